@@ -43,6 +43,58 @@ CLAIMS = {
         "the four laws are also evaluated directly on the C answers.",
    note=TB + "graph geometry: the cumulative-probability pick among adjacent regions is an oracle (candidate set and draw count modelled); mesh redraw loop on fuel.",
    tech="Coq proof (32-bit grid arithmetic, permutation of the shuffle) + exhaustive small-size differential correspondence"),
+ "C01": dict(cat="proof", ref="DESIGN.md §5 C01",
+   text="Theorems (Properties_C01.v, axiom-free): for every valid program table of the interpreter application (proved strictly causal), every number "
+        "of LPs and EVERY schedule of the micro-step abstract Time Warp machine (take/incremental rollback: mark one output, re-pool one input, annihilate, "
+        "append, drop, begin-cancel), the invariants hold in every reachable state and, for every bound valid there, each LP's history below the bound equals "
+        "its projection of the sequential execution (closed_sorted_family_unique by peeling); the order of the theory is proved to be the runtime's event order of C16. "
+        "Tie to the C runtime: differential — generated programs (ties, zero delay, payload 0..100, library RNG, rs_malloc/realloc/free scripts over several arenas) x "
+        "(threads 1..16 incl. > LPs, checkpoint interval, GVT period) — every returning run's per-LP hash-chain digest equals the extracted reference executor. "
+        "The refinement process_msg -> abstract steps itself is not mechanised (partial, named in the evidence).",
+   note=TB + "SC atomics at model level; refinement of the C code to the abstract machine by differential runs only.",
+   tech="Coq proof (invariants over all schedules of an abstract Time Warp machine + uniqueness of closed sorted histories) + differential runs against the extracted sequential executor"),
+ "C03": dict(cat="proof", ref="DESIGN.md §5 C03",
+   text="Theorems (Properties_C03.v, axiom-free): in every reachable state of the abstract machine and for every GVT value valid there, the part of an LP's history "
+        "below it is a prefix of the history and equals the LP's sequential dispatch sequence below it; commit bounds are monotone (what was released stays a prefix). "
+        "Tie: the fossil-collection hook emits every released entry before it is freed, the shutdown hook the remaining history; per LP the committed sequence "
+        "(time, type, size, payload digest) is compared with the extracted reference executor run to exhaustion, for runs ended by predicate, termination time and RootsimStop.",
+   note=TB + "as C01; committed = released by fossil collection, or held at shutdown below the last GVT delivered to the owning thread.",
+   tech="Coq proof (corollary of the C01 capstone + timestamp-sorted prefix lemma) + trace comparison of committed sequences with the extracted executor"),
+ "C07": dict(cat="proof", ref="DESIGN.md §5 C07",
+   text="Theorems (Properties_C07.v, axiom-free): model of termination.c for any number of LPs of a thread with a ghost history; for every sequence of forward executions, "
+        "rollbacks and GVT notifications the accounting invariant holds and a thread votes at GVT g only if g reached the termination time or every LP's predicate is recorded "
+        "true at init or on an event still in its history with timestamp < g. Tie: real termination.c (hook exposes its thread-local counters) vs extracted model on generated "
+        "histories dwelling on timestamp 0; vote soundness re-evaluated independently on the implementation's answers; end-to-end runs: at return every LP has committed >= target events "
+        "unless the GVT reached the termination time or the model ran out of events.",
+   note=TB + "g is a safe bound by C04; runs stopped by RootsimStop are outside the property.",
+   tech="Coq proof (invariant by induction over operation histories) + differential correspondence of termination.c + end-to-end committed-count oracle"),
+ "C08": dict(cat="proof", ref="DESIGN.md §5 C08",
+   text="PARTIAL. Theorems (Properties_C08.v, axiom-free): the c_a/c_b GVT phase protocol has no deadlock in any reachable state while all threads keep stepping, a pass is bounded by 4n steps; "
+        "barrier exits are enabled once all entered. REFUTED for the composition in the code: F12 (witness state reachable in the model; only the absent thread can move) — recorded known finding, "
+        "reproduced by the runs. Decision on the real runtime: every generated run (predicate / termination time / RootsimStop from a handler; 1..16 threads; GVT periods down to 0) must return "
+        "within the watchdog with one LP_FINI per LP; a non-returning run is classified by hook stage markers and reported unless it matches a known finding.",
+   note=TB + "liveness of the whole shutdown path is not proved; OS starvation and MPI progress cannot be exhibited by the model.",
+   tech="Coq proof of deadlock-freedom/bounded passes on protocol models + refutation witness + watchdog-classified runs"),
+ "C09": dict(cat="proof", ref="DESIGN.md §5 C09",
+   text="Theorems (Properties_C09.v, axiom-free): the seeded generator state is well formed for every (lp, seed) and stays so under draws (so by C18 every draw of every run is defined); "
+        "the committed outcome theorem of C01 mentions no configuration. Tie: random_lib_lp_init compared bit-exactly with the model for sampled (lp, seed); metamorphic matrix "
+        "(threads x checkpoint interval x GVT period x repetition) on programs drawing RandomU64/Random/RandomRange: all final digests equal each other and the reference.",
+   note=TB + "configuration independence inherits C01's level.",
+   tech="Coq proof (seeding well-formedness; C01 corollary) + bit-exact seeding correspondence + metamorphic runs"),
+ "C10": dict(cat="proof", ref="DESIGN.md §5 C10",
+   text="Theorems (Properties_C10.v, axiom-free): the reference executor dispatches at every step an event minimal in the runtime order among all pending ones, removes exactly it, adds exactly "
+        "its outputs, changes only the destination LP, keeps the pending list sorted for the whole run; the heap algorithms of heap.h keep the heap property and a minimal root for any strict weak order "
+        "and size. Tie: serial.c dispatch logs vs the extracted executor per LP (ties, zero delay, events at init incl. time 0, payloads, termination time, LP true at init), order and "
+        "LP_INIT/LP_FINI counts checked on the implementation.",
+   note=TB + "serial.c itself is tied by differential runs (no mechanised refinement of serial.c).",
+   tech="Coq proof (sortedness/minimality invariants of the executor, heap invariants) + differential dispatch-log correspondence"),
+ "C17": dict(cat="proof", ref="DESIGN.md §5 C17",
+   text="Theorems (Properties_C17.v, axiom-free, n >= 1 threads, every schedule): invariant for every reachable state; a poll leaves use u only when all n threads entered use u; the leader flag "
+        "is true exactly for the first (counting-up use) / last (counting-down use) thread to enter, hence one leader per use; enter always enabled; exit enabled once all entered; window hand-over "
+        "K -> K+1 re-establishes the invariant (reusable indefinitely). Tie: real sync_thread_barrier under the cooperative scheduler (yield hooks before the fetch-add and in both spin loops), "
+        "1..6 threads x up to 50 uses x uniform/long-stride schedules; each schedule is replayed action by action through the extracted model; epoch counters check no-early-exit on the implementation.",
+   note=TB + "SC atomics; code between two scheduling points is atomic.",
+   tech="Coq proof (inductive invariant over all interleavings, parametric in n) + exact schedule replay through the extracted model"),
 }
 
 PENDING_REASON = "check not built yet in this session (work in progress, see DESIGN.md §8 order of work); not claimed until its theorem and correspondence run"
